@@ -373,3 +373,7 @@ impl SwarmDriver {
         (peers_in_non_full_buckets + 1) * (2_usize.pow(num_of_full_buckets as u32))
     }
 }
+
+#[cfg(maidsafe_safe_network_verif)]
+#[path = "../verif/event.rs"]
+pub mod verif;
